@@ -104,6 +104,34 @@ fn crafted_inference_programs() -> Vec<String> {
             }
         }
     }
+    // suffix-free ranges nested in aggregate literals where the expected element type cannot be
+    // the type of a range (signed, or too narrow for the last element)
+    for (expr, ty) in [
+        ("[0..2, 0..2]", "[[i8; 2]; 2]"),
+        ("[0..2, 5..7]", "[[i64; 2]; 2]"),
+        ("(0..2, x)", "([i8; 2], u8)"),
+        ("(x, (1..3, true))", "(u8, ([i16; 2], bool))"),
+        ("[0..2; 2]", "[[i16; 2]; 2]"),
+        ("[254..256, 255..257]", "[[u8; 2]; 2]"),
+        ("[65534..65537; 3]", "[[u16; 3]; 3]"),
+        ("(255..257, x)", "([u8; 2], u8)"),
+    ] {
+        v.push(format!("pub fn main(x: u8) -> {ty} {{ {expr} }}\n"));
+        v.push(format!("pub fn main(x: u8) -> u8 {{ let t: {ty} = {expr}; x }}\n"));
+        v.push(format!("fn f(p: {ty}) -> u8 {{ 0u8 }}\npub fn main(x: u8) -> u8 {{ f({expr}) + x }}\n"));
+    }
+    // a definition that is dropped because a later one has the same name must not hide its errors
+    for prog in [
+        "fn f(a: u8) -> u8 { a + undefined }\nfn f(a: u8) -> u8 { a }\npub fn main(x: u8) -> u8 { f(x) }\n",
+        "fn f(a: u8) -> bool { a }\nfn f(a: u8) -> u8 { a }\npub fn main(x: u8) -> u8 { f(x) }\n",
+        "pub fn main(x: u8) -> u8 { y }\npub fn main(x: u8) -> u8 { x }\n",
+        "const C: u8 = true;\nconst C: u8 = 2u8;\npub fn main(x: u8) -> u8 { x + C }\n",
+        "struct T { a: Unknown }\nstruct T { a: u8 }\npub fn main(x: u8) -> u8 { let t = T { a: x }; t.a }\n",
+        "enum T { A(Unknown) }\nenum T { A(u8) }\npub fn main(x: u8) -> u8 { match T::A(x) { T::A(y) => y } }\n",
+        "struct T { a: bool }\nenum T { A }\npub fn main(x: u8) -> u8 { let t = T { a: x }; x }\n",
+    ] {
+        v.push(prog.to_string());
+    }
     v
 }
 
